@@ -11,7 +11,7 @@ RULE = ("Inputs: the shipped phreeqc3-examples that run error-free and Hypothesi
         "simulations depend on definitions of earlier ones (SELECTED_OUTPUT/USER_PUNCH, RATES, CALCULATE_VALUES, KNOBS, PRINT, "
         "INCREMENTAL_REACTIONS, database additions, SAVE/USE/COPY/MIX/RUN_CELLS chains, PUT/GET memory). Each case = input x cut set over "
         "its END boundaries x delivery per piece (RunString / RunFile / AccumulateLine+RunAccumulated); oracle: selected-output rows per "
-        "user number (heading->value, sim column dropped, doubles bitwise), final DUMP -all text (simulation numbers in descriptions "
+        "user number (heading->value, sim column dropped, rows without any value dropped, doubles bitwise), final DUMP -all text (simulation numbers in descriptions "
         "normalised), component list and return values of the split run equal those of one RunString of the whole text on a fresh "
         "instance. Non-trivial = >= 2 pieces and a later piece that punches rows without containing SELECTED_OUTPUT or USEs/runs/mixes/"
         "copies an entity number that is not defined earlier in that same piece; distinct by SHA-256 of the case. Cut sets are "
@@ -20,7 +20,10 @@ ASSUMPTIONS = ["the reference (one RunString of the whole text on a fresh instan
                "simulations are delimited by lines consisting of the keyword END alone (END inside ';' lines is never a cut point)",
                "the allowed differences are the simulation counter only: 'sim' columns and 'simulation N' in entity descriptions",
                "generated programs never read SIM_NO; examples do not use it",
-               "selected-output rows of a split run = concatenation of the tables read after each call"]
+               "selected-output rows of a split run = concatenation of the tables read after each call",
+               "a row without any value is not an observable row (a table without columns reports no rows)",
+               "an input whose single-call run kills the process or does not end is not an error-free input (discarded, counted)",
+               "chemistry of generated programs comes from vp.cellgen; kinetics without CVODE, moderate amounts (run time)"]
 TECHNIQUE = "property-based differential testing (Hypothesis + small-scope enumeration of cut sets): split/re-delivered run vs single-call run"
 LEVEL_TEXT = ("Exploration: every shipped example under all (<= 6 boundaries) or sampled cut sets and thousands of generated "
               "multi-simulation programs are executed split over several calls with mixed entry points and compared bitwise with the "
@@ -28,7 +31,7 @@ LEVEL_TEXT = ("Exploration: every shipped example under all (<= 6 boundaries) or
 FLOORS = {"quick": 150, "thorough": 1500}
 SHARDS = {"quick": 8, "thorough": 16}
 # per-shard budgets
-BUDGET = {"quick": {"gen": 170, "gen_all": 6, "ex": 14}, "thorough": {"gen": 650, "gen_all": 40, "ex": 40}, "replay": {}}
+BUDGET = {"quick": {"gen": 170, "gen_all": 6, "ex": 14}, "thorough": {"gen": 650, "gen_all": 25, "ex": 40}, "replay": {}}
 
 EXDIR = os.path.join(lib.REPO, "phreeqc3-examples")
 EX_DB = {"ex15": "ex15.dat", "ex15a": "ex15.dat", "ex15b": "ex15.dat", "ex17": "pitzer.dat", "ex17b": "pitzer.dat",
@@ -82,7 +85,9 @@ def example(name):
         db = EX_DB.get(name, "phreeqc.dat")
         if db == "ex15.dat":
             db = os.path.join(EXDIR, db)
-        _ex_cache[name] = (db, split_sims(text))
+        sims = split_sims(text)
+        assert "".join(sims) == text
+        _ex_cache[name] = (db, sims)
     return _ex_cache[name]
 
 
@@ -451,6 +456,8 @@ def check_case(case, ctx):
     nt = False
     deliv = case["deliv"] or ["S"]
     for ci, cuts in enumerate(cutsets):
+        if ci:
+            ctx.begin(case)         # heartbeat for the driver's per-case watchdog (an "all" case is up to 64 split runs)
         d = deliv if case["cuts"] != "all" else [deliv[(ci + j) % len(deliv)] for j in range(len(cuts) + 1)]
         d = [d[j % len(d)] for j in range(len(cuts) + 1)]
         obs = run_split(db, sims, cuts, d, sd)
